@@ -145,7 +145,7 @@ void harness_protocol(void) {
         if (st.repr == wuffs_base__suspension__short_read) {
           verif_check(src.buf.meta.ri == src.buf.meta.wi, "protocol/short-read-justified");
         } else {
-          verif_check(st.repr == wuffs_base__suspension__short_write && op == 1 && dst.buf.meta.wi == dst.buf.data.len, "protocol/short-write-justified");
+          verif_check(st.repr == wuffs_base__suspension__short_write && op == 1 && (dst.buf.meta.wi == dst.buf.data.len || dst.buf.meta.closed), "protocol/short-write-justified");
         }
       } else {
         verif_check(st.repr == NULL, "protocol/ok-is-null-status");
